@@ -6,6 +6,7 @@ PROP_FILE = 'Properties/C20.v'
 RULE = ('random register schedules (power, triggers of all four channels, NR50/NR51 routing, volumes, envelopes, sweep, '
         'wave RAM) over emulated time: one run of 1.06 emulated seconds across the once-per-second wrap of the sample '
         'clock, ~40 schedules of 10^4-10^5 machine cycles, runs starting just before the wrap (hook), runs with '
+        'a single routed channel switched off by length expiry / sweep overflow with its DAC left on (silence afterwards); '
         'power off, power cycles followed by re-triggers before NR50/NR51 are rewritten, and with no / only one output attached; the number of pairs is counted per machine cycle '
         '(checksum over (cycle, left, right)) and all sample values are compared as exact integers '
         'round(sample*6400); paired runs differ only in a channel not routed to the left (right) side and must give '
@@ -128,6 +129,16 @@ def generate(rng, tier):
         cases.append(('xcr%d' % k, setup(rng) + [cyc(rng.randrange(1, 3000)), w(NR52, 0x00), cyc(rng.randrange(0, 50)), w(NR52, 0x80)] +
                       retrigger() + ([w(NR50, rng.randrange(256))] if k % 2 else []) +
                       [cyc(2000), 'apu.samples', w(NR51, rng.randrange(256)), w(NR50, rng.randrange(256)), cyc(2000), 'apu.samples']))
+    # 4c. a routed square channel that is switched off by its length counter or by a sweep overflow while its DAC stays
+    #     on (all other channels off): silence from then on
+    def solo(extra, wait):
+        return [w(NR52, 0x00), w(NR52, 0x80), w(NR50, 0x77), w(NR51, 0xFF)] + extra + \
+               [cyc(wait), 'apu.samples', 'apu.r 0xFF26', cyc(4000), 'apu.samples']
+    cases.append(('z2len', solo([w(NR22, 0xF0), w(NR21, 0xBE), w(NR23, 0x00), w(NR24, 0xC7)], 9000)))
+    cases.append(('z1len', solo([w(NR12, 0xF3), w(NR11, 0x3F), w(NR13, 0x80), w(NR14, 0xC6)], 5000)))
+    cases.append(('z1sweep', solo([w(NR12, 0xF0), w(NR10, 0x11), w(NR11, 0x80), w(NR13, 0x00), w(NR14, 0x84)], 7000)))
+    cases.append(('z4len', solo([w(NR42, 0xF0), w(NR41, 0x3E), w(NR43, 0x11), w(NR44, 0xC0)], 9000)))
+    cases.append(('z3len', solo([w(NR30, 0x80), w(NR32, 0x20), w(NR31, 0xFE), w(NR33, 0x00), w(NR34, 0xC7)], 9000)))
     # 5. NR51 = 0: silence
     cases.append(('mute', setup(rng, nr51=0) + [cyc(20000), 'apu.samples']))
     # 6. paired runs: channel ch not routed to one side, differs between A and B
@@ -223,6 +234,16 @@ def extra(check, impl_cases, model_cases, cases):
             pre = count(4 * 500)
             if any(a or b for a, b in pairs[pre:]):
                 bad(cid, lines, 'non-zero sample after an APU power cycle although NR50/NR51 were not both rewritten')
+        if cid.startswith('z'):
+            # the second samples line follows a NR52 read that must show no channel on: then everything is silent
+            nr52 = [l for l in impl if l.isdigit()]
+            last = [l for l in impl if l.startswith('s ')][-1].split()
+            body = last[4] if len(last) > 4 else ''
+            tail = [v for v, k in parse_rle(body)]
+            if not nr52 or int(nr52[0]) & 0x0F:
+                bad(cid, lines, 'channel still on (NR52=%s) although its length counter / sweep must have switched it off' % nr52)
+            elif any(v != '0:0' for v in tail):
+                bad(cid, lines, 'NR52 shows no channel on, yet non-zero samples are emitted (%s)' % tail[:3])
         if cid == 'mute' and any(a or b for a, b in pairs):
             bad(cid, lines, 'non-zero sample with NR51 = 0')
         if cid.startswith('p') and 'A_' in cid:
